@@ -427,7 +427,7 @@ func (r *c09Rig) setup() (err error) {
 	r.teardown()
 	cfg := r.cell.pairCfg()
 	if r.cell.Kind == "OPN" {
-		if r.p, err = newPair(cfg); err != nil {
+		if r.p, err = newPairRetry(cfg); err != nil {
 			return err
 		}
 		got := r.captureNext(r.cell.dir(), "OPN", true)
@@ -1081,7 +1081,12 @@ func c09Supervise(r *evid.Run, job c09Job, verbose bool) string {
 	restarts := 0
 	for {
 		jb, _ := json.Marshal(job)
-		cmd := exec.Command(os.Args[0], "C09")
+		// re-execute this very binary image, even if its file name has been replaced meanwhile
+		exe := "/proc/self/exe"
+		if _, err := os.Stat(exe); err != nil {
+			exe = os.Args[0]
+		}
+		cmd := exec.Command(exe, "C09")
 		cmd.Env = append(os.Environ(), "VERIF_C09_JOB="+string(jb), "GOMAXPROCS=4", "GOTRACEBACK=all")
 		var stderr tailBuf
 		cmd.Stderr = &stderr
